@@ -112,6 +112,11 @@ func GenC14(seed uint64, tier string) *Plan {
 		switch r.Weighted([]int{14, 34, 18, 6, 6, 14, 4, 4}) {
 		case 1: // status replaced
 			st.Faults = []Fault{{Seam: "resp", Kind: rt.Pick(r, statusFaultKinds), Arg: 100 + r.Intn(500), Sel: r.Intn(16)}}
+			if r.Chance(0.2) {
+				st.Faults[0].Note, st.Faults[0].At = "cut", r.Intn(4000)
+			} else if r.Chance(0.1) {
+				st.Faults[0].Note = "absurd-length"
+			}
 			if r.Chance(0.3) {
 				st.Faults[0].Arg = rt.Pick(r, []int{100, 101, 199, 200, 201, 204, 206, 207, 226, 299, 300, 301, 304, 307, 399, 400, 401, 403, 404, 405, 409, 412, 423, 424, 499, 500, 501, 503, 507, 599})
 			}
@@ -123,6 +128,9 @@ func GenC14(seed uint64, tier string) *Plan {
 			}
 		case 2: // body cut
 			st.Faults = []Fault{{Seam: "resp", Kind: rt.Pick(r, []string{"cut-eof", "cut-error"}), At: r.Intn(1200)}}
+			if r.Chance(0.15) {
+				st.Faults[0].Note, st.Faults[0].Sel = "absurd-length", r.Intn(4)
+			}
 			if r.Chance(0.3) {
 				st.Faults[0].At = r.Intn(64)
 			}
@@ -136,7 +144,9 @@ func GenC14(seed uint64, tier string) *Plan {
 			if r.Chance(0.4) {
 				st.Faults[0].Note = "keep-value"
 			}
-			if st.Faults[0].Kind == "ms-response-status" && r.Chance(0.35) {
+			if r.Chance(0.2) {
+				st.Faults = []Fault{{Seam: "resp", Kind: "ms-neutral", Sel: r.Intn(6), At: r.Intn(6)}}
+			} else if st.Faults[0].Kind == "ms-response-status" && r.Chance(0.35) {
 				// the failing status is ADDED to the response, its propstats stay
 				// (not what RFC 4918 section 14.24 allows, but what servers send)
 				st.Faults[0].Note = "keep-propstat"
